@@ -132,11 +132,17 @@ def run(ctx, model_available=True):
             n, c, k, a, t, p = m
             if k not in (1, 3) or not payload_ok(p):
                 continue
+            if rng.random() < 0.12:
+                # the same Gateway object, next session (disconnect, connect again)
+                im.reconnect()
             raw = im.send(m, buffered=False)
             if raw["exc"] is None and raw["writes"]:
                 line = raw["writes"][0][0]
                 r2 = im.recv(line)
                 gw_cases += 1
+                e2 = r2["exc"]
+                if e2 is not None and type(e2).__name__ == "InvalidMessageError" and isinstance(getattr(e2, "message", None), str):
+                    failures.append({"kind": "oracle", "sig": "C01:gateway-roundtrip", "desc": f"the gateway wrote {line!r} for {m!r} and its own decoder rejects that line ({str(e2)[:120]})", "case": {"message": m, "line": line, "history": im.ops}})
                 # yielded message (when the handler accepts it) must equal m
                 if r2["msg"] is not None:
                     from common import msg_tuple
